@@ -21,7 +21,10 @@ class H:
 
     def __init__(self, name, fn, params=None, tiers=('quick', 'thorough'), finding=None,
                  bounds='', assumptions=(), max_paths=200000, expected_exc=(),
-                 witness=True, note='', rlimit_claim=None, chunk_s=None, exact=False, path_timeout=120):
+                 witness=True, note='', rlimit_claim=None, chunk_s=None, exact=False, path_timeout=120,
+                 finding_claims=None, finding_errors=None):
+        self.finding_claims = finding_claims    # substrings of claim names that constitute the listed finding
+        self.finding_errors = finding_errors    # exception class names that constitute it (for no_unexpected_exception)
         self.path_timeout = path_timeout
         self.name = name
         self.fn = fn
